@@ -238,11 +238,17 @@ func c06Run(in *c06Input) (*c06Obs, bool) {
 		if lo < in.Root.Num {
 			lo = in.Root.Num
 		}
+		// every start block from a little below the cursor LIB to a little above the cursor block (a target cursor below
+		// the start block has already passed)
 		span := int(e.CBlk.Num-lo) + 1
 		if span < 1 {
 			span = 1
 		}
+		span += 3
 		obs.Start = lo + uint64(in.SSel%span)
+		if obs.Start > stop {
+			obs.Start = stop // nothing exists above the last canonical block: the source would wait for it
+		}
 		src = bstream.NewFileSourceThroughCursor(merged, forkedStore, obs.Start, cur, h, zap.NewNop(), opts...)
 	} else {
 		obs.Start = e.Lib.Num
@@ -369,6 +375,9 @@ func c06Exec(raw json.RawMessage) (*Case, error) {
 		}
 	}
 	cs.Class = fmt.Sprintf("%s/%s/err%d", mode, kind, obs.Err)
+	if in.Pass && obs.Start > obs.Cursor.Blk.Num {
+		cs.Class += "/cursor-passed"
+	}
 	if nundo > 0 {
 		cs.Class += "/forked"
 	}
